@@ -308,6 +308,116 @@ pub fn run_socket(address: &str, reqs: &[Req], depth: usize, rng: &mut Rng, segm
     SockRun { out, closed, inconclusive: None, extra_sentinels }
 }
 
+/// A client that sends `reqs[..k]` as one burst and then WAITS for every reply the burst is owed
+/// before sending anything else (the window-filling driver never ends a burst on a oneway call
+/// and always has a sentinel behind it).  Returns the run and how many final replies were still
+/// missing when the wait gave up.
+pub fn run_socket_pausing(address: &str, reqs: &[Req], k: usize, sentinel_token: &str, wait: Duration) -> (SockRun, usize) {
+    let fail = |why: String| (SockRun { out: vec![], closed: false, inconclusive: Some(why), extra_sentinels: vec![] }, 0);
+    let mut conn = match RawConn::connect(address) {
+        Ok(c) => c,
+        Err(e) => return fail(format!("connect: {}", e)),
+    };
+    let mut out = Vec::new();
+    let mut closed = false;
+    let owed = reqs[..k].iter().filter(|r| !r.flags.oneway).count();
+    let mut finals = 0usize;
+    let mut missing = 0usize;
+    if conn.write_all(&seq_bytes(&reqs[..k])).is_err() {
+        closed = true;
+    }
+    while finals < owed && !closed {
+        match conn.read_frame(wait) {
+            ReadEv::Frame(f) => {
+                if serde_json::from_slice::<Value>(&f).map(|v| !is_continues(&v)).unwrap_or(true) {
+                    finals += 1;
+                }
+                out.extend_from_slice(&f);
+                out.push(0);
+            }
+            ReadEv::Eof => {
+                closed = true;
+                out.extend_from_slice(&conn.rbuf);
+            }
+            ReadEv::Timeout => {
+                missing = owed - finals;
+                break;
+            }
+            ReadEv::Error(e) => return fail(format!("read error {}", e)),
+        }
+    }
+    if !closed {
+        let mut rest: Vec<Req> = reqs[k..].to_vec();
+        rest.push(Req::new(Kind::Echo, Flags { more: false, oneway: false }, sentinel_token));
+        if conn.write_all(&seq_bytes(&rest)).is_err() {
+            closed = true;
+        }
+        let marker = format!("\"{}\"", sentinel_token);
+        loop {
+            match conn.read_frame(Duration::from_secs(20)) {
+                ReadEv::Frame(f) => {
+                    let is_sentinel = String::from_utf8_lossy(&f).contains(&marker);
+                    out.extend_from_slice(&f);
+                    out.push(0);
+                    if is_sentinel {
+                        break;
+                    }
+                }
+                ReadEv::Eof => {
+                    closed = true;
+                    out.extend_from_slice(&conn.rbuf);
+                    break;
+                }
+                ReadEv::Timeout => return fail("no frame and no EOF within 20 s of the sentinel".into()),
+                ReadEv::Error(e) => return fail(format!("read error {}", e)),
+            }
+        }
+    }
+    (SockRun { out, closed, inconclusive: None, extra_sentinels: vec![] }, missing)
+}
+
+/// Replies owed to a burst must arrive without any further input from the client.  A wait is
+/// not a verdict by itself: only when the same burst is short of replies three times in a row
+/// while the connection stays open (and the replies then do arrive once more bytes are sent or
+/// never) is it reported; a single slow round is inconclusive.
+fn pausing_case(ctx: &Ctx, address: &str, tname: &str, reqs: &[Req], k: usize, w: usize, n: usize) {
+    let mut stalls = Vec::new();
+    for attempt in 0..3 {
+        let sentinel = format!("PSENT{}x{}a{}", w, n, attempt);
+        let (sr, missing) = run_socket_pausing(address, reqs, k, &sentinel, Duration::from_secs(4));
+        if let Some(why) = sr.inconclusive {
+            ctx.inconclusive(json!({"why": why, "requests": reqs.iter().map(|r| r.describe()).collect::<Vec<_>>(), "pause_after": k, "transport": tname}));
+            return;
+        }
+        let mut all = reqs.to_vec();
+        all.push(Req::new(Kind::Echo, Flags { more: false, oneway: false }, &sentinel));
+        let run = MemRun { out: sr.out, closed: if sr.closed { Some("EOF".into()) } else { None }, panicked: None, tail: vec![], upgraded: None, left_in_reader: 0, handle_calls: 0, out_per_call: vec![], upgrade_input_len: None };
+        if attempt == 0 {
+            ctx.count("socket_connections", 1);
+            ctx.count("bursts_awaited_without_further_input", 1);
+            if reqs[k - 1].flags.oneway {
+                ctx.count("awaited_bursts_ending_in_oneway", 1);
+            }
+            let before = ctx.violations();
+            judge_c01(ctx, &all, k, &run, tname);
+            if ctx.violations() > before {
+                return;
+            }
+        }
+        if missing == 0 || run.closed.is_some() {
+            if attempt > 0 {
+                ctx.inconclusive(json!({"why": "a burst was short of replies after 4 s once but not when repeated", "pause_after": k, "transport": tname}));
+            }
+            return;
+        }
+        stalls.push(format!("attempt {}: {} final replies missing 4 s after the burst, connection open; full reply stream afterwards: {}", attempt, missing, truncate(&show(&run.out), 300)));
+    }
+    ctx.violation(
+        "c01:socket:replies-withheld-until-further-input",
+        json!({"engine": "c01-pause", "transport": tname, "pause_after": k, "requests": reqs.iter().map(|r| r.to_value()).collect::<Vec<_>>(), "request_kinds": reqs.iter().map(|r| r.describe()).collect::<Vec<_>>(), "message": stalls}),
+    );
+}
+
 pub fn run_sockets(ctx: &Ctx, which: &str) {
     let tier = ctx.tier;
     let nconn = tier.pick(1500usize, 20_000usize);
@@ -356,6 +466,17 @@ pub fn run_sockets(ctx: &Ctx, which: &str) {
                 let reqs = random_seq(&mut rng, ALL_KINDS, len, &format!("w{}n{}_", w, n), if which == "C04" { 40 } else { 15 });
                 let d = rng.range(1, len);
                 one_socket_case(ctx, which, &svc, &address, &tname, &reqs, d, &mut rng, w, 100000 + n);
+            }
+            if which == "C01" {
+                for n in 0..per / 3 {
+                    let len = rng.range(2, 8);
+                    let reqs = random_seq(&mut rng, ALL_KINDS, len, &format!("p{}n{}_", w, n), 35);
+                    let k = rng.range(1, len);
+                    pausing_case(ctx, &address, &tname, &reqs, k, w, n);
+                    if ctx.violations() >= 3 {
+                        break;
+                    }
+                }
             }
         });
         if let Err(e) = server.stop() {
@@ -425,6 +546,19 @@ pub fn replay(ctx: &Ctx, which: &str, w: &Value) {
         if let Some(&kind) = ALL_KINDS.iter().find(|k| format!("{:?}", k) == kname) {
             reqs.push(Req::new(kind, f, token));
         }
+    }
+    if w.get("engine").and_then(|v| v.as_str()) == Some("c01-pause") {
+        let mut server = match Server::start(standard_service(SvcCfg::default()), Transport::UnixPath, ServerCfg::default()) {
+            Ok(s) => s,
+            Err(e) => return ctx.inconclusive(json!({"server_start": e})),
+        };
+        if let Err(e) = server.wait_ready() {
+            return ctx.inconclusive(json!({"server_ready": e}));
+        }
+        let k = w.get("pause_after").and_then(|v| v.as_u64()).unwrap_or(1) as usize;
+        pausing_case(ctx, &server.address.clone(), "UnixPath", &reqs, k.clamp(1, reqs.len().max(1)), 0, 0);
+        let _ = server.stop();
+        return;
     }
     let depth = w.get("depth").and_then(|v| v.as_u64()).unwrap_or(reqs.len() as u64) as usize;
     let run = run_mem(&svc, &reqs, depth);
